@@ -31,3 +31,14 @@ func waitWake(wait chan struct{}) {
 
 // RaceBuild reports whether the binary was built with the race detector.
 const RaceBuild = true
+
+// Invisible runs f with the race detector's handling of synchronisation events switched off for
+// this goroutine: harness bookkeeping done from inside a thread (breadcrumb file writes) must not
+// create happens-before edges between threads.
+//
+//go:norace
+func Invisible(f func()) {
+	runtime.RaceDisable()
+	f()
+	runtime.RaceEnable()
+}
